@@ -1,0 +1,72 @@
+//go:build verif
+
+package parser
+
+// Contracts for the verification machinery in /verif (govc). Comment-only file:
+// compiled only with -tags verif, and even then it contains no code.
+
+// ---- source errors (C07) ------------------------------------------------------------
+// A *sourceLocError is written only while private to the function that allocates it.
+//@ immutable parser.sourceLocError
+
+//@ interface parser.Error
+//@ method Cause pure
+//@ method Path pure
+//@ method LineNumber pure
+
+//@ interface parser.Locatable
+//@ method SourceLocation pure
+//@ method SourceText pure
+
+//@ func (*parser.sourceLocError).Cause
+//@ reads
+//@ props C07 C01
+//@ assigns nothing
+//@ ensures def: result == e.cause
+
+//@ func (*parser.sourceLocError).Path
+//@ reads
+//@ props C07 C01
+//@ assigns nothing
+//@ ensures def: result == e.Pathname
+
+//@ func (*parser.sourceLocError).LineNumber
+//@ reads
+//@ props C07 C01
+//@ assigns nothing
+//@ ensures def: result == e.LineNo
+
+//@ func (parser.SourceLoc).IsZero
+//@ pure
+//@ props C07 C01
+//@ ensures def: result == (s.Pathname == "" && s.LineNo == 0)
+
+//@ func (parser.Token).SourceLocation
+//@ pure
+//@ props C07 C01
+//@ ensures def: result == c.SourceLoc
+
+//@ func (parser.Token).SourceText
+//@ pure
+//@ props C07 C01
+//@ ensures def: result == c.Source
+
+//@ func parser.Errorf
+//@ fresh
+//@ props C07 C01
+//@ panics nothing
+//@ requires loc: loc != nil
+//@ assigns alloc F$parser.sourceLocError$SourceLoc, alloc F$parser.sourceLocError$context, alloc F$parser.sourceLocError$message, alloc F$parser.sourceLocError$cause, alloc S$Val
+//@ ensures located: result != nil && result.SourceLoc == loc.SourceLocation() && result.context == loc.SourceText() && result.cause == nil
+
+// "located": the error already names a position (a path or a line).
+//@ func parser.WrapError
+//@ props C07 C20 C01
+//@ panics nothing
+//@ requires loc: loc != nil
+//@ assigns alloc F$parser.sourceLocError$SourceLoc, alloc F$parser.sourceLocError$context, alloc F$parser.sourceLocError$message, alloc F$parser.sourceLocError$cause, alloc S$Val
+//@ ensures nilnil: err == nil ==> result == nil
+//@ ensures nonnil: err != nil ==> result != nil
+//@ ensures innermost: is(err, parser.Error) && (err.(parser.Error).Path() != "" || err.(parser.Error).LineNumber() != 0) ==> result == err
+//@ ensures outerloc: err != nil && !is(err, parser.Error) ==> result.LineNumber() == loc.SourceLocation().LineNo && result.Path() == loc.SourceLocation().Pathname && result.Cause() == err
+//@ ensures unlocated: is(err, parser.Error) && err.(parser.Error).Path() == "" && err.(parser.Error).LineNumber() == 0 && !loc.SourceLocation().IsZero() ==> result.LineNumber() == loc.SourceLocation().LineNo && result.Path() == loc.SourceLocation().Pathname && result.Cause() == ite(err.(parser.Error).Cause() != nil, err.(parser.Error).Cause(), err)
